@@ -159,11 +159,7 @@ func (m *mon) enter(kind string) func() {
 	}
 	m.mu.Unlock()
 	if tell != "" {
-		if m.label == "A" {
-			m.early("ok A:" + tell + " B:")
-		} else {
-			m.early("ok A: B:" + tell)
-		}
+		m.early("ok " + m.label + ":" + tell)
 	}
 	switch mode {
 	case "sleep":
@@ -274,6 +270,19 @@ func (e *Entry) Hit(ctx *as.RemoteContext, msg *messages.TestHello, cb apientry.
 	return nil
 }
 
+// Later: a request handler that answers from a helper goroutine (Response is documented as callable
+// from any goroutine); the response still has to reach the requester through its mailbox
+func (e *Entry) Later(ctx *as.RemoteContext, msg *messages.TestHello, cb apientry.HandlerCBFunc) error {
+	s := svcOf(ctx)
+	defer s.m.enter("req")()
+	v := msg.I
+	go func() {
+		time.Sleep(time.Microsecond)
+		apientry.CheckInvokeCBFunc(cb, nil, &messages.TestHello{I: v + 1})
+	}()
+	return nil
+}
+
 func (e *Entry) Mute(ctx *as.RemoteContext, msg *messages.TestHello, cb apientry.HandlerCBFunc) error {
 	s := svcOf(ctx)
 	defer s.m.enter("mute")()
@@ -342,6 +351,7 @@ type world struct {
 	sys    *actor.ActorSystem
 	nCase  int
 	a, b   *hsvc
+	u, v   *hsvc // two services created with the EMPTY run-service name
 	pa     *actor.PID
 	pb     *actor.PID
 	direct bool // event centres of this case are in direct mode (SetLocalUseChan(false))
@@ -353,8 +363,12 @@ type world struct {
 
 const nSibs = 12
 
-func (w *world) spawn(tag string, nsib int) (*hsvc, *actor.PID, []*actor.PID) {
+func (w *world) spawn(tag string, nsib int, unnamed ...bool) (*hsvc, *actor.PID, []*actor.PID) {
 	name := fmt.Sprintf("c04%s%d", tag, w.nCase)
+	rsName := name
+	if len(unnamed) > 0 && unnamed[0] {
+		rsName = "" // the run service picks its own name ("rs<n>"), as NewServicePropsWithNewScheDisp(p, "") services do
+	}
 	var s *hsvc
 	m := newMon()
 	m.label, m.early = strings.ToUpper(tag), w.early
@@ -365,7 +379,7 @@ func (w *world) spawn(tag string, nsib int) (*hsvc, *actor.PID, []*actor.PID) {
 			s = x
 		}
 		return x
-	}, name, "c04.remote")
+	}, rsName, "c04.remote")
 	pid, err := w.sys.Root.SpawnNamed(props, name)
 	if err != nil {
 		panic(err)
@@ -390,6 +404,8 @@ func (w *world) reset() string {
 	w.nCase++
 	w.a, w.pa, w.sibs = w.spawn("a", nSibs)
 	w.b, w.pb, _ = w.spawn("b", 0)
+	w.u, _, _ = w.spawn("u", 0, true)
+	w.v, _, _ = w.spawn("v", 0, true)
 	w.a.peer, w.b.peer = w.pb, w.pa
 	w.direct = false
 	w.lev = fmt.Sprintf("c04.lev%d", w.nCase)
@@ -414,7 +430,12 @@ func (w *world) reset() string {
 		})
 		settle()
 	}
-	return "ok A:" + w.a.m.report() + " B:" + w.b.m.report()
+	for _, s := range []*hsvc{w.u, w.v} {
+		s := s
+		s.Post(func() { defer s.m.enter("post")() })
+		settle()
+	}
+	return "ok A:" + w.a.m.report() + " B:" + w.b.m.report() + " U:" + w.u.m.report() + " V:" + w.v.m.report()
 }
 
 type burst struct {
@@ -627,6 +648,27 @@ func (w *world) exec(op string) string {
 			return "bad-op"
 		}
 		return w.burst(b)
+	case "anon":
+		p, post, k, m, busy := hx.KVInt(ws, "p"), hx.KVInt(ws, "post"), hx.KVInt(ws, "ses"), hx.KVInt(ws, "msg"), hx.KVInt(ws, "busy")
+		if len(ws) != 6 || !allNum(ws[1:], "p", "post", "ses", "msg", "busy") || p < 1 || p > 16 || post > 400 || k > 40 || m > 40 || busy > 1 || w.u == nil {
+			return "bad-op"
+		}
+		return w.anon(p, post, k, m, busy == 1)
+	case "flood":
+		who, _ := hx.KV(ws, "who")
+		n := hx.KVInt(ws, "n")
+		if len(ws) != 3 || !allNum(ws[1:], "n") || (who != "foreign" && who != "owner") || n < 1 || n > 1500 ||
+			(who == "owner" && n > 900) || w.a == nil || w.direct {
+			return "bad-op"
+		}
+		return w.flood(who == "owner", n)
+	case "selfreq":
+		how, _ := hx.KV(ws, "how")
+		n := hx.KVInt(ws, "n")
+		if len(ws) != 3 || !allNum(ws[1:], "n") || (how != "helper" && how != "sync") || n < 1 || n > 200 || w.a == nil {
+			return "bad-op"
+		}
+		return w.selfreq(how == "helper", n)
 	case "evmode":
 		v, ok := hx.KV(ws, "chan")
 		if len(ws) != 2 || !ok || (v != "0" && v != "1") || w.a == nil {
@@ -646,6 +688,93 @@ func (w *world) exec(op string) string {
 		return w.stop(who == "loop", qn, kn)
 	}
 	return "bad-op"
+}
+
+// allNum: every named key is present exactly as key=<decimal digits>
+func allNum(ws []string, keys ...string) bool {
+	for _, k := range keys {
+		v, ok := hx.KV(ws, k)
+		if !ok || v == "" || len(v) > 6 {
+			return false
+		}
+		for _, c := range v {
+			if c < '0' || c > '9' {
+				return false
+			}
+		}
+	}
+	return true
+}
+
+// anon: the posted-closure and client-session streams on the two services whose run service was created
+// with the empty name; with busy, U is kept inside a long piece meanwhile
+func (w *world) anon(p, post, k, m int, busy bool) string {
+	if busy {
+		u := w.u
+		u.Post(func() {
+			defer u.m.enter("post")()
+			time.Sleep(time.Millisecond)
+		})
+	}
+	for _, s := range []*hsvc{w.u, w.v} {
+		s := s
+		fanout(p, post, func(j int) { s.Post(func() { defer s.m.enter("post")() }) })
+		for i := 0; i < k; i++ {
+			i := i
+			go func() {
+				fs := &fakeSession{}
+				s.simpl.OnSessionCreate(fs)
+				time.Sleep(time.Millisecond)
+				for j := 0; j < m; j++ {
+					s.simpl.ProcessMessage(fs, &message.Message{Type: message.Request, ID: uint(j + 1), Route: "x.y.z", Data: []byte{byte(i)}})
+				}
+				s.simpl.OnSessionClose(fs)
+			}()
+		}
+	}
+	settle()
+	return "ok U:" + w.u.m.report() + " V:" + w.v.m.report()
+}
+
+// flood: more local events than the centre's 999-slot queue holds, published while the owner A is kept
+// inside a long piece — by a foreign goroutine (which then waits on the full queue until A is released)
+// or, as the control, at most 900 by the long piece itself
+func (w *world) flood(owner bool, n int) string {
+	a := w.a
+	pub := func() {
+		for j := 0; j < n; j++ {
+			a.GetRunService().GetEventCenter().Publish(w.lev, j)
+		}
+	}
+	a.Post(func() {
+		defer a.m.enter("post")()
+		if owner {
+			pub()
+		} else {
+			go pub()
+		}
+		time.Sleep(2 * time.Millisecond)
+	})
+	settle()
+	return "ok A:" + a.m.report() + " B:" + w.b.m.report()
+}
+
+// selfreq: A sends n requests to its OWN pid; the handler answers synchronously or from a helper
+// goroutine; either way the response is a piece of its own, delivered through A's mailbox
+func (w *world) selfreq(helper bool, n int) string {
+	a := w.a
+	route := "c04.hit"
+	if helper {
+		route = "c04.later"
+	}
+	a.Post(func() {
+		defer a.m.enter("post")()
+		for j := 0; j < n; j++ {
+			a.RequestEx(w.pa, route, &messages.TestHello{I: int32(j)}, func(err error, msg interface{}) { defer a.m.enter("rsp")() })
+		}
+	})
+	settle()
+	return "ok A:" + a.m.report() + " B:" + w.b.m.report()
 }
 
 // settle waits until the work that is under way has drained: synctest.Wait returns when every goroutine
@@ -793,7 +922,8 @@ var malformed = []string{"burst", "burst p=0 post=1 " + z13 + " tmo=0 sfl=0 ses=
 	"burst p=2 post=1 " + z13 + " tmo=0 sfl=0 ses=0 msg=0 slow=0 z=0 sib=0 own=0 dw=nap",
 	"burst p=2 post=1 " + z13 + " tmo=0 sfl=0 ses=0 msg=0 slow=0 z=0 sib=13 own=0 dw=spin",
 	"burst p=2 post=1 " + z13 + " tmo=0 sfl=0 ses=0 msg=0 slow=0 z=0 sib=0 own=2 dw=spin",
-	"evmode", "evmode chan=2", "stop who=me q=1 ses=1", "stop who=loop q=1", "stop who=foreign q=401 ses=0",
+	"evmode", "evmode chan=2", "anon p=0 post=1 ses=0 msg=0 busy=0", "anon p=1 post=1 ses=0 msg=0", "anon p=1 post=1 ses=41 msg=0 busy=0",
+	"flood who=owner n=901", "flood who=foreign n=0", "flood who=x n=5", "selfreq how=later n=3", "selfreq how=sync n=201", "selfreq how=sync", "stop who=me q=1 ses=1", "stop who=loop q=1", "stop who=foreign q=401 ses=0",
 	"burst p=2 post=1 " + z13 + " tmo=0 sfl=0 ses=0 msg=0 slow=11 z=0 sib=0 own=0 dw=spin",
 	"burst p=2 post=1 " + z13 + " tmo=0 sfl=0 ses=0 msg=0 dw=spin",
 	"burst p=2 post=1", "reset now", "frobnicate", "burst p=2 post=401 " + z13 + " tmo=0 sfl=0 ses=0 msg=0 slow=0 z=0 sib=0 own=0 dw=spin"}
@@ -866,6 +996,32 @@ func TestRun(t *testing.T) {
 				case x < 5:
 					h.Count("op.evmode")
 					run(fmt.Sprintf("evmode chan=%d", h.R.Intn(2)))
+					continue
+				case x < 10:
+					// posted closures and client sessions on the two services with the empty run-service name
+					h.Count("op.anon")
+					run(fmt.Sprintf("anon p=%d post=%d ses=%d msg=%d busy=%d", []int{1, 4, 8}[h.R.Intn(3)], []int{1, 20, 150}[h.R.Intn(3)],
+						[]int{0, 2, 10}[h.R.Intn(3)], h.R.Intn(6), h.R.Intn(2)))
+					done++
+					continue
+				case x < 13:
+					// more local events than the queue holds while the owner is stalled (rejected in direct mode)
+					who, n := "foreign", []int{5, 999, 1000, 1001, 1300}[h.R.Intn(5)]
+					if h.R.Intn(4) == 0 {
+						who, n = "owner", []int{1, 300, 900}[h.R.Intn(3)]
+					}
+					h.Count("op.flood." + who)
+					if n >= 1000 {
+						h.Count("op.flood.over-capacity")
+					}
+					run(fmt.Sprintf("flood who=%s n=%d", who, n))
+					done++
+					continue
+				case x < 17:
+					how := []string{"helper", "helper", "sync"}[h.R.Intn(3)]
+					h.Count("op.selfreq." + how)
+					run(fmt.Sprintf("selfreq how=%s n=%d", how, 1+h.R.Intn(40)))
+					done++
 					continue
 				}
 				run(genBurst(h))
